@@ -189,3 +189,58 @@ func VerifC02_Bulk() {
 		verifrt.Cover("inside")
 	}
 }
+
+// VerifC02_ComputedBase: the base address is the result of an earlier i32 instruction in the same function (not a
+// parameter): the access must trap exactly when the 32-bit result plus the static offset plus the width exceeds the size.
+//verif:opts split=op:8
+func VerifC02_ComputedBase() {
+	ctx := context.Background()
+	x, y := verifrt.U32("x"), verifrt.U32("y")
+	sx, sy := int32(x), int32(y)
+	var op []byte
+	var base uint32
+	switch verifrt.Choose("op", 8) {
+	case 0: // rem_s
+		verifrt.Assume(y != 0)
+		op = []byte{0x6f}
+		if sy == -1 {
+			base = 0
+		} else {
+			base = uint32(sx % sy)
+		}
+	case 1: // div_s
+		verifrt.Assume(y != 0 && !(sx == -2147483648 && sy == -1))
+		op, base = []byte{0x6d}, uint32(sx/sy)
+	case 2:
+		op, base = []byte{0x75}, uint32(sx>>(y%32)) // shr_s
+	case 3:
+		op, base = []byte{0x6b}, x-y // sub
+	case 4:
+		op, base = []byte{0x1a, 0xc0}, uint32(int32(int8(x))) // drop y ; extend8_s
+	case 5:
+		op, base = []byte{0x1a, 0xc1}, uint32(int32(int16(x))) // drop y ; extend16_s
+	case 6:
+		op, base = []byte{0x6c}, x*y // mul
+	case 7:
+		op, base = []byte{0x6a}, x+y // add
+	}
+	// (func (param i32 i32) (result i32) local.get 0 local.get 1 <op> i32.load8_u offset=16)
+	body := append(append([]byte{0x20, 0x00, 0x20, 0x01}, op...), 0x2d, 0x00, 0x10)
+	m := &verifModule{tableMin: -1, hasMem: true, memMin: 1, memMax: 65536,
+		funcs: []verifFunc{{params: []byte{vI32, vI32}, results: []byte{vI32}, export: "f", body: body}}}
+	vi, err := verifInstantiate(ctx, m.encode(), "m", nil, nil, nil, false)
+	if err != nil {
+		verifrt.Assert(false, "by-construction valid module is accepted")
+		return
+	}
+	size := verifSymMemory(vi)
+	mem := vi.inst.MemoryInstance.Buffer
+	res, err := vi.inst.ExportedFunction("f").Call(ctx, uint64(x), uint64(y))
+	ea := uint64(base) + 16
+	inb := ea+1 <= size
+	verifrt.Assert(verifIsOOB(err) == !inb && (err == nil) == inb, "an access based on a computed address traps iff result+offset+width > size")
+	if inb && err == nil {
+		verifrt.Assert(len(res) == 1 && res[0] == uint64(verifrt.Initial(mem, ea)), "and reads exactly the addressed byte")
+		verifrt.Cover("loaded")
+	}
+}
